@@ -5,6 +5,7 @@ from .. import core, repair as RP, oracle as O, util as U
 
 PID = 'C09'
 OPTS_A = [(False, 1000), (True, 1000), (True, 0), (False, 1), (True, 2)]
+_LAST = {}
 ALL2 = [a + b for a in 'ACGT' for b in 'ACGT']
 
 
@@ -39,6 +40,8 @@ def any_case(r, k, G, acc, start, s, chk, indel, heap=1000):
     pre = 'C09|any-input|'
     case = dict(RP.gcase(k, G), start=start, s=s, chk=chk, indel=indel, heap=heap, clean=False)
     path = 'fallback' if int(stats[2]) == 0 else 'product'
+    if path == 'product' and len(cands) > 1:
+        _LAST['case'] = dict(RP.gcase(k, G) if len(G) <= 16 else {'k': k}, start=start, strand=s if len(s) <= 60 else s[:57] + '...', check=chk, indel=indel, heap=heap, candidates=cands[:4], statistics=core._j(stats))
     r.ctr['path_' + path] += 1
     if cands != sorted(cands):
         r.v(pre + 'candidates-not-sorted|%s-path' % path, 'rep', case, sorted(cands)[:6], cands[:6])
@@ -161,7 +164,7 @@ def _w(chunk):
         starts = list(range(4)) if k == 1 else (live if len(live) <= 16 else live[:8] + live[-8:])
         check_graph(r, k, G, n_by_k[k], starts, thin=4 if k == 1 else 99)
     k, G, t = items[-1]
-    r.sample(dict(RP.gcase(k, G), what='every walk and every ACGT string of length %d..%d from the starts; checks absent/correct/wrong/neighbours' % (k, n_by_k[k])), 1)
+    r.sample(_LAST.get('case') or dict(RP.gcase(k, G), what='every walk and every ACGT string of length %d..%d' % (k, n_by_k[k])), 1)
     return r
 
 
